@@ -183,7 +183,15 @@ pub fn run_plan(plan: Plan, tier: Tier) -> Outcome
         }
         let ti = Instant::now();
         let opts = ExploreOpts{ deadline: Some(deadline), ..Default::default() };
-        let stats = explore(it.cfg.clone(), Arc::new(MonitorJudge), &opts);
+        let mut judge = MonitorJudge::new();
+        if !it.cfg.final_ops.is_empty()
+        {
+            // differential probe: baseline = the probe tree on a world where nothing else was chosen
+            let base = execute(&it.cfg, vec![]);
+            judge.probe_baseline = crate::judge::probe_segment(&base.trace);
+            if judge.probe_baseline.is_none() { eprintln!("machinery error: probe baseline missing in {}", it.cfg.name); return Outcome{ exit: 2 }; }
+        }
+        let stats = explore(it.cfg.clone(), Arc::new(judge), &opts);
         if !stats.machinery_errors.is_empty()
         {
             eprintln!("machinery error in {}: {:?}", it.cfg.name, &stats.machinery_errors[..stats.machinery_errors.len().min(3)]);
